@@ -124,6 +124,7 @@ class Obl:
 
 
 _cache = None
+QUICK_SKIPPED = []  # obligations the quick tier leaves to the thorough tier (solver time above the quick budget)
 
 
 def cache_path():
